@@ -208,9 +208,9 @@ fn c01e_lzma2_reader_state_reset() {
     assert!(res.is_ok());
     let (st, reps) = verif_get_state(r.lzma.as_ref().unwrap());
     if b[0] >= 0xA0 {
-        assert!(st == 0 && reps == [0; 4], "C01-E: state-reset chunk did not reset the coder state");
+        assert!(st == 0 && reps[0] == 0 && reps[1] == 0 && reps[2] == 0 && reps[3] == 0, "C01-E: state-reset chunk did not reset the coder state");
     } else {
-        assert!(st == 5 && reps == [1, 2, 3, 4], "C01-E: chunk without reset disturbed the coder state");
+        assert!(st == 5 && reps[0] == 1 && reps[1] == 2 && reps[2] == 3 && reps[3] == 4, "C01-E: chunk without reset disturbed the coder state");
     }
     kani::cover!(b[0] == 0xA0, "exactly 0xA0");
     kani::cover!(b[0] < 0xA0, "no reset");
